@@ -92,6 +92,13 @@ CHECKS = {
           'every binder sets its slot before the body and counts iterations, ITERATE blocks re-evaluate their domain, inlined function bodies get never-reused fresh names, lazy products enumerate in comparison order, and no evaluation code reads the syntax variant.',
   'note': 'The value of whole programs (nesting, recursion and imperative control flow, capture-freedom of argument substitution, equality of lazy and enumerated sets as values) is NOT decided; this is the structural part that is necessary for it. The oracle is set theory / propositional logic written in rules/C01.py, not the current code.',
  },
+ 'C17': {
+  'technique': 'writer/reader table agreement (reference syntax constants, grammeme tables over the whole enum) and structural data-flow rules (scan resume position, units of lengths, accumulation and shifting of ranges, guards of throwing operations)',
+  'text': 'Decides: the printed form of both reference kinds splits back into its fields with the parser\'s own constants; TAG_NAMES and TAG_MAP are mutually inverse on all grammemes; the scanner reports [@ .. after }) and resumes exactly at the end of the previous reference; '
+          'every recorded length of a resolved reference is a code-point count, the new range is old start + accumulated difference and the difference accumulates resolved - unresolved; Insert/EraseIn shift later references by the same amount; Referals = entity references; '
+          'throwing operations in the reference parser are guarded.',
+  'note': 'Byte-exact preservation of text between references and the UTF-8 arithmetic of Substr/iterators (C20 string clause) are not decided. Two reference-parser crashes found by r6 were repaired (fix commits 7cddfef, 5695371).',
+ },
 }
 
 _PENDING = 'rule module not yet implemented in this round; see DESIGN.md section 4 for the clauses planned'
